@@ -324,6 +324,11 @@ package h2
 //@ implements settingFn
 //@ requires r != nil && r.peer != nil && relayWF(r.peer) && relayInj(r.peer) && r.peer.decoder != nil && r.peer.encoder != nil
 //@ modifies pkg(hpack), relay.initialWindowSize, relay.maxFrameSize, relay.connectionWindowSize, outputBuffer.windowSize, elems(http2.Setting), cells([]http2.Setting), qlo, nsent, outseq, sentAll
+// C09: every announcement takes effect on the relay that sends to the announcing
+// endpoint - whatever the value was before (a repeated value included).
+//@ ensures s.ID == 4 ==> r.peer.initialWindowSize == s.Val && result == nil
+//@ ensures s.ID == 5 && result == nil ==> r.peer.maxFrameSize == s.Val
+//@ ensures s.ID == 5 ==> (result == nil) == (s.Val >= 16384 && s.Val <= 16777215)
 
 //@ func (*relay).decodeFull
 //@ property C10 C12
